@@ -7,15 +7,26 @@
    and type string,
        rtosc_match (render p) addr ty = true  <->  matches_spec p addr ty.
    It is FALSE of the faithful model (C05_path_refuted, C05_enum_refuted: the
-   code never backtracks).  Proved instead: the "only if" half in full
-   (C05_no_spurious, C05_index_bound, C05_callback_index_bound - for EVERY
-   NUL- and ':'-free address, no bound on its digits -,
-   C05_match_sound, C05_types_sound), the "if" half under the two named side
-   conditions alts_prefix_free / enum_delimited (C05_path_partial,
-   C05_match_partial) and for the types in full (C05_types_complete). *)
+   code never backtracks).  Proved instead:
+   - path, "only if" half, no side condition: C05_no_spurious, C05_index_bound,
+     C05_callback_index_bound (EVERY NUL- and ':'-free address, no bound on its
+     digits);
+   - path, "if" half, under the two named side conditions alts_prefix_free /
+     enum_delimited: C05_path_partial, C05_match_partial;
+   - types: a type string EQUAL to an alternative is admitted
+     (C05_types_complete); one that is neither equal to nor an extension of an
+     alternative is rejected (C05_types_sound, C05_match_sound - the last
+     sentence of the property text).  These two do NOT make the types half an
+     equivalence with "equals one of them": the code also admits every proper
+     extension of the LAST alternative (a:i accepts "if") and of no other one
+     (a:i:f rejects "is").  The property text tolerates extensions, so this is
+     no violation; the exact set is C05_types_ext_last_only /
+     C05_match_types_exact, "every alternative is extensible" is
+     C05_types_ext_every_refuted, and under the two side conditions rtosc_match
+     as a whole is decided by C05_match_exact_partial. *)
 From Coq Require Import List ZArith.
 From RtoscV Require Import Match.PatSpec Match.MatchModel Match.MatchProofs Match.MatchRegress
-     Match.StarProofs.
+     Match.StarProofs Match.TypesExact.
 Import ListNotations.
 Local Open Scope Z_scope.
 
@@ -86,7 +97,9 @@ Theorem C05_copies_agree : forall p args,
   arg_matcher p args = match_args p args /\ pm_match_args p args = match_args p args.
 Proof. exact copies_agree. Qed.
 
-(* rtosc_match = path and types; "only if" in full *)
+(* rtosc_match = path and types; whatever matches spells the path and has a
+   type string equal to or extending SOME alternative (which one may be
+   extended: C05_match_types_exact below) *)
 Theorem C05_match_sound : forall p addr ty pe,
   wf_pat p -> addr_ok addr -> nul_free ty ->
   rtosc_match (render p) addr ty = Some (true, pe) ->
@@ -163,3 +176,45 @@ Proof. exact star_at_end_refuted. Qed.
 (* text between '*' and the next '/' or ':' is skipped: a*b/ accepts ax/ *)
 Theorem C05_star_text_ignored : match_path [97; 42; 98; 47] [97; 120; 47] = MRet [] [].
 Proof. exact star_text_ignored. Qed.
+
+(* ---- which type strings are admitted, exactly -------------------------------- *)
+(* the alternatives themselves and the extensions of the LAST (non-empty)
+   alternative, nothing else *)
+Theorem C05_types_ext_last_only : forall l ty,
+  types_ok (Some l) -> nul_free ty ->
+  match_args (render_types (Some l)) ty = true <-> equal_or_ext_last l ty.
+Proof. exact types_ext_last_only. Qed.
+
+(* "an extension of ANY alternative is admitted" is false: a:i:f rejects "is" *)
+Theorem C05_types_ext_every_refuted : exists l a ty,
+  types_ok (Some l) /\ nul_free ty /\ In a l /\ prefix a ty /\
+  match_args (render_types (Some l)) ty = false.
+Proof. exact types_ext_every_refuted. Qed.
+
+(* C05_match_sound with the exact type condition *)
+Theorem C05_match_types_exact : forall p addr ty pe,
+  wf_pat p -> addr_ok addr -> nul_free ty ->
+  rtosc_match (render p) addr ty = Some (true, pe) ->
+  exists rest, pe = Some rest /\ path_spec p addr rest /\ types_exact p ty.
+Proof. exact match_types_exact. Qed.
+
+(* under the two side conditions rtosc_match is decided: path spelled and type
+   string an alternative or an extension of the last one *)
+Theorem C05_match_exact_partial : forall p addr ty,
+  wf_pat p -> alts_prefix_free p -> enum_delimited (segs p) -> addr_ok addr -> nul_free ty ->
+  (exists rest, rtosc_match (render p) addr ty = Some (true, Some rest)) <->
+  ((exists rest, path_spec p addr rest) /\ types_exact p ty).
+Proof. exact match_exact_partial. Qed.
+
+(* x{ab,cd}#4/y:i satisfies every hypothesis of the partial theorems; xcd3/y
+   and xab0/y match, xcd4/y, xad3/y and xabcd3/y do not *)
+Theorem C05_path_alt_nonvacuous :
+  wf_pat pat_alt /\ alts_prefix_free pat_alt /\ enum_delimited (segs pat_alt) /\
+  addr_ok [120; 99; 100; 51; 47; 121] /\
+  path_spec pat_alt [120; 99; 100; 51; 47; 121] [] /\
+  rtosc_match (render pat_alt) [120; 99; 100; 51; 47; 121] [105] = Some (true, Some []) /\
+  rtosc_match (render pat_alt) [120; 97; 98; 48; 47; 121] [105] = Some (true, Some []) /\
+  rtosc_match (render pat_alt) [120; 99; 100; 52; 47; 121] [105] = Some (false, None) /\
+  rtosc_match (render pat_alt) [120; 97; 100; 51; 47; 121] [105] = Some (false, None) /\
+  rtosc_match (render pat_alt) [120; 97; 98; 99; 100; 51; 47; 121] [105] = Some (false, None).
+Proof. exact path_alt_nonvacuous. Qed.
